@@ -384,7 +384,7 @@ func init() {
 			"expected order = struct field order with separator token lists interleaved with the list before them; a []byte Value is the default text of the token slot before it (printer contract visible in all leaf kinds)",
 			"glue the printer may add by itself: PHP keywords/punctuation, '<?php ', '?>', single spaces",
 		},
-		Plan:       func(p core.Params) int { return len(synthCases(p)) + p.Pick(8000, 400000) },
+		Plan:       func(p core.Params) int { return len(synthCases(p)) + p.Pick(40000, 400000) },
 		Exhaustive: func(p core.Params) bool { return false },
 		Run: func(c *core.Ctx, idx int) {
 			cases := synthCases(c.P)
